@@ -454,13 +454,41 @@ def check_recursive_chain(ctx, rng):  # noqa: C901
         ctx.violation(f"router:{v['kind']}", f"recursive chain {info}: {v}", v)
 
 
+@dataclass
+class XComment:
+    text: str
+    post: typing.Optional["XPost"] = None
+
+
+@dataclass
+class XPost:
+    title: str
+    comments: List[XComment]
+
+
+def _inner_retort_recursion(ctx):
+    """Known finding: a recursion cycle whose head is processed by the OUTER retort and whose second occurrence falls into a retort placed
+    in the recipe (bound(Comment, inner)) gets a recursion stub from the inner retort's resolver that nobody ever binds."""
+    data = {"title": "t", "comments": [{"text": "a", "post": {"title": "u", "comments": [{"text": "b"}]}}]}
+    want = attempt(Retort().load, data, XPost)
+    inner = Retort()
+    outer = Retort(recipe=[bound(XComment, inner)])
+    got = attempt(outer.load, data, XPost)
+    ctx.evaluated(("inner-retort-recursion", "load"))
+    ctx.count("bound_inner_retorts")
+    if want.kind != "ok" or got.kind != "ok" or not strict_eq(got.value, want.value):
+        ctx.violation("inner-retort-recursion-across-the-boundary", f"bound(Comment, inner) with Post.comments: List[Comment], Comment.post: Optional[Post]: outer.load gives {got!r:.200}, "
+                      f"a single retort {want!r:.120}", {})
+    RM.drain()
+
+
 def _witness_combiner(ctx):
     run_recipe(ctx, [Prov("int", "FIRST", "A"), Prov("ANY&~str", "FIRST", "B")])
     run_recipe(ctx, [Prov("str", "FIRST", "A"), Prov("~P[int]", "FIRST", "B")])
     run_recipe(ctx, [Prov("str", "plain", "A"), Prov("int", "plain", "B"), Prov("str", "FIRST", "C"), Prov("ANY", "LAST", "D")])
 
 
-DIRECTED = {"single-entry-exact-origin-combo": _witness_combiner}
+DIRECTED = {"single-entry-exact-origin-combo": _witness_combiner, "inner-retort-recursion-across-the-boundary": _inner_retort_recursion}
 from ..suite_leg import make as _suite_leg  # noqa: E402
 
 DIRECTED["suite-under-monitors"] = _suite_leg("C09")
